@@ -76,6 +76,11 @@ var (
 	optsLate     bool // limits were changed after segments had been fed: the bound is not monitored
 	multiPage    bool // a packet larger than one page was fed
 	pendingFed   bool // the oracle has not been told about the current segment yet
+
+	// whole-run state (survives reset)
+	hangs        int  // operations that did not return
+	giveUp       bool // two operations hung: the real code is not driven any more, every op answers `dead`
+	lostSegments int  // reasm:queue:lost-segment findings so far
 )
 
 type factory struct{}
@@ -431,6 +436,7 @@ func monQueueGuard() {
 	lib.Stat("queue-guard-checked")
 	if q, _, _ := pool.VerifPages(); q == 0 {
 		dead = true
+		lostSegments++
 		lib.Finding("C09", "reasm:queue:lost-segment", fmt.Sprintf("%d accepted out-of-order segment(s) are in no queue and can never be delivered (%s)", want, where))
 	}
 }
@@ -595,14 +601,24 @@ func guarded(f func()) (res string) {
 		f()
 		done <- ""
 	}()
-	wd := time.NewTimer(20 * time.Second)
+	wd := time.NewTimer(10 * time.Second)
 	defer wd.Stop()
 	select {
 	case r := <-done:
 		return r
 	case <-wd.C:
 		dead = true
-		lib.Finding("*", "reasm:hang:"+curOp, "operation did not return within 20 s")
+		hangs++
+		if hangs >= 2 {
+			// the real code spins (every hung operation leaves a goroutine burning a CPU): stop driving it, so
+			// that the run ends and what the monitors found is reported instead of a timeout of the whole run
+			giveUp = true
+		}
+		if lostSegments == 0 {
+			lib.Finding("*", "reasm:hang:"+curOp, "operation did not return within 10 s")
+		} else {
+			lib.Stat("hang-after-lost-segment") // consequence of the corrupted queue already reported
+		}
 		return "hang"
 	}
 }
@@ -652,7 +668,10 @@ func exec(a []string) string {
 		lib.Stat("seqdiff")
 		return "ok " + strconv.Itoa(got)
 	}
-	if dead {
+	if dead || giveUp {
+		if giveUp {
+			lib.Stat("gave-up")
+		}
 		return "dead"
 	}
 	switch a[1] {
@@ -747,7 +766,9 @@ func exec(a []string) string {
 		}
 		if r != "" {
 			dead = true
-			lib.Finding("*", "reasm:"+strings.ReplaceAll(r, " ", ":")+":"+panicSite, "AssembleWithContext panicked: "+panicMsg)
+			if r != "hang" { // a hang was reported by the watchdog itself
+				lib.Finding("*", "reasm:"+strings.ReplaceAll(r, " ", ":")+":"+panicSite, "AssembleWithContext panicked: "+panicMsg)
+			}
 			return r
 		}
 		monLimit(len(pay))
@@ -774,7 +795,9 @@ func exec(a []string) string {
 		lib.Stat("flush")
 		if r != "" {
 			dead = true
-			lib.Finding("*", "reasm:"+strings.ReplaceAll(r, " ", ":")+":"+panicSite, "FlushWithOptions panicked: "+panicMsg)
+			if r != "hang" { // a hang was reported by the watchdog itself
+				lib.Finding("*", "reasm:"+strings.ReplaceAll(r, " ", ":")+":"+panicSite, "FlushWithOptions panicked: "+panicMsg)
+			}
 			return r
 		}
 		monAfterFlush(t)
@@ -791,7 +814,9 @@ func exec(a []string) string {
 		lib.Stat("flushall")
 		if r != "" {
 			dead = true
-			lib.Finding("*", "reasm:"+strings.ReplaceAll(r, " ", ":")+":"+panicSite, "FlushAll panicked: "+panicMsg)
+			if r != "hang" { // a hang was reported by the watchdog itself
+				lib.Finding("*", "reasm:"+strings.ReplaceAll(r, " ", ":")+":"+panicSite, "FlushAll panicked: "+panicMsg)
+			}
 			return r
 		}
 		monAfterFlushAll()
